@@ -20,7 +20,9 @@ Definition next_rule (r : rule) : rule :=
   | RTopLevel => REndDocument | RMapValue => RMapKey | REdgeSource => REdgeDescription
   | REdgeDescription => REdgeDestination | RNode => RList | r => r
   end.
-Definition null_allowed (r : rule) : bool := match r with REdgeSource | REdgeDestination => false | _ => true end.
+Definition pos_of_rule (r : rule) : vpos :=
+  match r with REdgeSource => PSrc | REdgeDescription | RNode => PDesc | REdgeDestination => PDst | _ => PPlain end.
+Definition null_allowed (r : rule) : bool := null_ok (pos_of_rule r).
 
 (* A cell made of argument checks followed by at most one rule change. *)
 Definition is_guard (p : prim) : bool :=
@@ -88,6 +90,8 @@ Lemma other_cells :
   prims_eqb (dispatch RRecordType MPadding) [] && prims_eqb (dispatch RRecordType MComment) [] &&
   prims_eqb (dispatch RMapKey MKeyableObject) [PNotifyKeyArg; PChangeRule RMapValue] &&
   prims_eqb (dispatch RMapKey MStringlikeArray) [PValidateFullArrayStringlikeKeyable; PNotifyKeyFromArrayData; PChangeRule RMapValue] &&
+  prims_eqb (dispatch RMapKey MArray) [PValidateFullArrayKeyable; PNotifyKeyFromArrayData; PChangeRule RMapValue] &&
+  prims_eqb (dispatch RRecordType MArray) [PValidateFullArrayKeyable; PNotifyKeyFromArrayData] &&
   prims_eqb (dispatch RRecordType MKeyableObject) [PNotifyKeyArg] &&
   prims_eqb (dispatch RRecordType MStringlikeArray) [PValidateFullArrayStringlikeKeyable; PNotifyKeyFromArrayData] &&
   prims_eqb (dispatch RTopLevel MRecordType) [PBeginRecordType] &&
@@ -135,76 +139,147 @@ Proof. destruct e; reflexivity. Qed.
 (* the rule-change cells *)
 Lemma value_cell_exec cfg f r m a c :
   is_value_rule r = true -> In m leaf_meths -> (m = MNull -> null_allowed r = true) ->
-  (m = MArray -> validate_full_array_any cfg (a_arrty a) (a_count a) (a_data a) = true /\
-                 assert_array_type (a_arrty a) Allow_NonNull = true /\ assert_array_type (a_arrty a) Allow_Any = true) ->
-  (m = MStringlikeArray -> validate_full_array_stringlike cfg (a_arrty a) (a_data a) = true /\
-                 assert_array_type (a_arrty a) Allow_NonNull = true /\ assert_array_type (a_arrty a) Allow_Any = true) ->
+  forallb (guard_holds cfg a) (dispatch r m) = true ->
   e_rule (cur c) = r ->
   exec_prims cfg (call_rule f cfg) r m a (dispatch r m) c = Some (set_cur c (with_rule (cur c) (next_rule r))).
 Proof.
-  intros V M HN HA HS R. apply in_value_rules in V.
+  intros V M HN G0 R. apply in_value_rules in V.
   pose proof value_table as T. rewrite forallb_forall in T. specialize (T r V).
   do 7 (apply andb_true_iff in T as [T _]). rewrite forallb_forall in T. specialize (T m M).
   apply orb_true_iff in T as [T|T].
   { destruct m; try discriminate T. rewrite HN in T by reflexivity. discriminate. }
   apply andb_true_iff in T as [T1 T2].
   destruct (guarded_change (dispatch r m)) as [tgt|] eqn:G; [|discriminate].
-  rewrite (guarded_change_exec cfg _ r m a _ tgt c G).
-  - f_equal. unfold expected_change in T1. destruct (rule_beq r (next_rule r)) eqn:B.
-    + apply rule_beq_true in B. destruct tgt; [discriminate|]. rewrite <- B, <- R, with_rule_same. destruct c; reflexivity.
-    + destruct tgt as [x|]; [|discriminate]. apply rule_beq_true in T1. subst x. reflexivity.
-  - apply forallb_forall. intros p Hp.
-    assert (is_guard p = true -> guard_holds cfg a p = true) as X.
-    { intro Gp. destruct p; try discriminate Gp; cbn [guard_holds].
-      - (* ValidateAny *)
-        destruct m; cbn in M; try (exfalso; intuition congruence);
-          try (rewrite forallb_forall in T2; specialize (T2 _ Hp); discriminate T2).
-        + apply HA; reflexivity.
-        + exfalso. unfold has_any_validator in T2. apply negb_true_iff in T2.
-          assert (existsb (fun p => match p with PValidateFullArrayAnyType => true | _ => false end) (dispatch r MStringlikeArray) = true) as Y
-            by (apply existsb_exists; eexists; split; [exact Hp | reflexivity]). congruence.
-      - (* ValidateStringlike *)
-        destruct m; cbn in M; try (exfalso; intuition congruence);
-          try (rewrite forallb_forall in T2; specialize (T2 _ Hp); discriminate T2).
-        + exfalso. unfold has_stringlike_validator in T2. apply negb_true_iff in T2.
-          assert (existsb (fun p => match p with PValidateFullArrayStringlike => true | _ => false end) (dispatch r MArray) = true) as Y
-            by (apply existsb_exists; eexists; split; [exact Hp | reflexivity]). congruence.
-        + apply HS; reflexivity.
-      - (* Assert *)
-        destruct m0; try discriminate Gp; cbn [mask_value];
-          (destruct m; cbn in M; try (exfalso; intuition congruence);
-           try (rewrite forallb_forall in T2; specialize (T2 _ Hp); discriminate T2);
-           [apply HA; reflexivity | apply HS; reflexivity]). }
-    destruct (is_guard p) eqn:Gp; [auto|].
-    (* not a guard: the final rule change *)
-    clear -G Hp Gp. revert tgt G. induction (dispatch r m) as [|q rest IH]; intros tgt G; [destruct Hp|].
-    destruct Hp as [->|Hp].
-    + destruct p; try discriminate Gp; try reflexivity; cbn [guarded_change] in G; try (destruct rest; discriminate G).
-      rewrite Gp in G. discriminate G.
-    + cbn [guarded_change] in G. destruct q; cbn [is_guard] in G; try discriminate G;
-        try (destruct rest; [destruct Hp | discriminate G]); try (exact (IH Hp _ G)).
-      all: destruct m0; try discriminate G; exact (IH Hp _ G).
+  rewrite (guarded_change_exec cfg _ r m a _ tgt c G G0).
+  f_equal. unfold expected_change in T1. destruct (rule_beq r (next_rule r)) eqn:B.
+  - apply rule_beq_true in B. destruct tgt; [discriminate|]. rewrite <- B, <- R, with_rule_same. destruct c; reflexivity.
+  - destruct tgt as [x|]; [|discriminate]. apply rule_beq_true in T1. subst x. reflexivity.
+Qed.
+
+(* conversely: such a cell succeeds only if all its checks pass *)
+Lemma guarded_change_inv cfg call self m a cell : forall tgt c c',
+  guarded_change cell = Some tgt -> exec_prims cfg call self m a cell c = Some c' -> forallb (guard_holds cfg a) cell = true.
+Proof.
+  induction cell as [|p rest IH]; intros tgt c c' G E; [reflexivity|]. cbn [guarded_change] in G. cbn [forallb].
+  destruct p; cbn [is_guard] in G; try discriminate G;
+    try (destruct rest; [reflexivity | discriminate G]);
+    cbn [exec_prims exec_prim] in E; cbn [guard_holds].
+  - destruct (validate_full_array_any cfg (a_arrty a) (a_count a) (a_data a)); [eapply IH; eauto | discriminate E].
+  - destruct (validate_full_array_stringlike cfg (a_arrty a) (a_data a)); [eapply IH; eauto | discriminate E].
+  - destruct m0; try discriminate G; (destruct (assert_array_type (a_arrty a) (mask_value _)); [eapply IH; eauto | discriminate E]).
+Qed.
+
+(* the checks of the array cells, by position *)
+Definition is_src (r : rule) : bool := match pos_of_rule r with PSrc => true | _ => false end.
+Definition is_desc (r : rule) : bool := match pos_of_rule r with PDesc => true | _ => false end.
+Definition arr_cell_ok (r : rule) (m : meth) (val : prim) : bool :=
+  let cell := dispatch r m in
+  forallb (fun p => match p with PChangeRule _ => true | _ => false end || prim_beq p val || (prim_beq p (PAssertArrayType MaskNonNull) && is_src r) ||
+                    (prim_beq p (PAssertArrayType MaskAny) && is_desc r)) cell &&
+  existsb (prim_beq val) cell &&
+  (negb (is_src r) || existsb (prim_beq (PAssertArrayType MaskNonNull)) cell) &&
+  (negb (is_desc r) || existsb (prim_beq (PAssertArrayType MaskAny)) cell).
+Lemma guard_table :
+  forallb (fun r => arr_cell_ok r MArray PValidateFullArrayAnyType && arr_cell_ok r MStringlikeArray PValidateFullArrayStringlike)
+          value_rules = true.
+Proof. vm_compute. reflexivity. Qed.
+
+Lemma prim_beq_eq a b : prim_beq a b = true <-> a = b.
+Proof. split; [apply internal_prim_dec_bl | apply internal_prim_dec_lb]. Qed.
+
+Lemma arr_guard_rule r t :
+  arr_guard (pos_of_rule r) t =
+  (negb (is_src r) || assert_array_type t Allow_NonNull) && (negb (is_desc r) || assert_array_type t Allow_Any).
+Proof. unfold is_src, is_desc. destruct (pos_of_rule r); cbn [arr_guard negb orb andb]; rewrite ?andb_true_r; reflexivity. Qed.
+
+Lemma arr_cell_iff cfg a r m val :
+  arr_cell_ok r m val = true -> is_guard val = true ->
+  (forallb (guard_holds cfg a) (dispatch r m) = true <->
+   guard_holds cfg a val = true /\ arr_guard (pos_of_rule r) (a_arrty a) = true).
+Proof.
+  unfold arr_cell_ok. cbn zeta. intros T Gv. apply andb_true_iff in T as [T T4]. apply andb_true_iff in T as [T T3].
+  apply andb_true_iff in T as [T1 T2]. rewrite arr_guard_rule. rewrite forallb_forall in T1. split.
+  - intro F. rewrite forallb_forall in F. split.
+    + apply existsb_exists in T2 as [p [I E]]. apply prim_beq_eq in E. subst p. exact (F _ I).
+    + apply andb_true_iff. split.
+      * destruct (is_src r); [|reflexivity]. cbn [negb orb] in T3 |- *. apply existsb_exists in T3 as [p [I E]].
+        apply prim_beq_eq in E. subst p. exact (F _ I).
+      * destruct (is_desc r); [|reflexivity]. cbn [negb orb] in T4 |- *. apply existsb_exists in T4 as [p [I E]].
+        apply prim_beq_eq in E. subst p. exact (F _ I).
+  - intros [V G]. apply andb_true_iff in G as [G1 G2]. apply forallb_forall. intros p I. specialize (T1 p I).
+    repeat (apply orb_true_iff in T1 as [T1|T1]).
+    + destruct p; try discriminate T1; reflexivity.
+    + apply prim_beq_eq in T1. subst p. exact V.
+    + apply andb_true_iff in T1 as [E S]. apply prim_beq_eq in E. subst p. rewrite S in G1. exact G1.
+    + apply andb_true_iff in T1 as [E S]. apply prim_beq_eq in E. subst p. rewrite S in G2. exact G2.
 Qed.
 
 (* a leaf event: its plan *)
-Lemma leaf_plan cfg e :
-  leaf_ok cfg e = true ->
+Lemma leaf_plan cfg ps e :
+  leaf_ok cfg ps e = true ->
   exists pl, ev_plan cfg e = Some pl /\ p_nno pl = Some true /\ p_out pl = nn e /\
     In (p_meth pl) leaf_meths /\
     (p_meth pl = MNull -> is_null_event e = true) /\
     (p_meth pl = MArray -> validate_full_array_any cfg (a_arrty (p_args pl)) (a_count (p_args pl)) (a_data (p_args pl)) = true /\
-                 assert_array_type (a_arrty (p_args pl)) Allow_NonNull = true /\ assert_array_type (a_arrty (p_args pl)) Allow_Any = true) /\
+                 arr_guard ps (a_arrty (p_args pl)) = true) /\
     (p_meth pl = MStringlikeArray -> validate_full_array_stringlike cfg (a_arrty (p_args pl)) (a_data (p_args pl)) = true /\
-                 assert_array_type (a_arrty (p_args pl)) Allow_NonNull = true /\ assert_array_type (a_arrty (p_args pl)) Allow_Any = true).
+                 arr_guard ps (a_arrty (p_args pl)) = true).
 Proof.
   destruct e as [| |v| |m t| |b| | |n|n|z|[z|]|bits|[bf|]|[| | |]|[[| | |]|]|s|b|s| | |id|id| | | |id|id|t cnt d|t d|mt d|ct d|ct d|t|mt|t ct|n m|d];
     cbn [leaf_ok]; intro L; try discriminate L; cbn [ev_plan nn];
     repeat match goal with H : _ && _ = true |- _ => apply andb_true_iff in H as [H ?] end;
     try match goal with H : array_api_ok _ = true |- _ => rewrite H end;
+    try match goal with H : utf8_valid _ = true |- _ => rewrite H end;
+    try match goal with H : media_type_valid _ = true |- _ => rewrite H end;
+    try match goal with H : custom_type_ok _ = true |- _ => rewrite H end; cbn [negb andb];
     try match goal with |- context [if ?b then _ else _] => destruct b end;
     unfold mkplan; eexists; (split; [reflexivity|]); cbn [p_nno p_meth p_args p_out a_arrty a_count a_data array_args];
     (split; [reflexivity|]); (split; [reflexivity|]);
     (split; [cbn; tauto|]); repeat split; try discriminate; try reflexivity; try assumption.
+Qed.
+
+Lemma no_guards_hold cfg a cell tgt :
+  guarded_change cell = Some tgt -> forallb (fun p => negb (is_guard p)) cell = true -> forallb (guard_holds cfg a) cell = true.
+Proof.
+  revert tgt. induction cell as [|p rest IH]; intros tgt G N; [reflexivity|]. cbn [forallb guarded_change] in *.
+  apply andb_true_iff in N as [Np Nr]. apply negb_true_iff in Np. rewrite Np in G.
+  destruct p; try discriminate G. destruct rest; [reflexivity | discriminate G].
+Qed.
+
+(* the checks of the cell of a leaf method at a value rule: none for scalars, the validator and the
+   positional type check for arrays *)
+Lemma leaf_cell_guards cfg r m a :
+  is_value_rule r = true -> In m leaf_meths -> (m = MNull -> null_allowed r = true) ->
+  (forallb (guard_holds cfg a) (dispatch r m) = true <->
+   (m = MArray -> validate_full_array_any cfg (a_arrty a) (a_count a) (a_data a) = true /\ arr_guard (pos_of_rule r) (a_arrty a) = true) /\
+   (m = MStringlikeArray -> validate_full_array_stringlike cfg (a_arrty a) (a_data a) = true /\ arr_guard (pos_of_rule r) (a_arrty a) = true)).
+Proof.
+  intros V M HN. pose proof V as V'. apply in_value_rules in V.
+  pose proof guard_table as GT. rewrite forallb_forall in GT. specialize (GT r V). apply andb_true_iff in GT as [GA GS].
+  pose proof value_table as T. rewrite forallb_forall in T. specialize (T r V).
+  do 7 (apply andb_true_iff in T as [T _]). rewrite forallb_forall in T. specialize (T m M).
+  apply orb_true_iff in T as [T|T].
+  { destruct m; try discriminate T. rewrite HN in T by reflexivity. discriminate. }
+  apply andb_true_iff in T as [T1 T2]. destruct (guarded_change (dispatch r m)) as [tgt|] eqn:G; [|discriminate].
+  cbn [In leaf_meths] in M. destruct M as [M|[M|[M|[M|[M|[M|[]]]]]]]; subst m;
+    try (split; [intros _; split; intro X; discriminate X | intros _; eapply no_guards_hold; eauto]).
+  - rewrite (arr_cell_iff cfg a r MArray _ GA eq_refl). cbn [guard_holds]. split.
+    + intro H. split; [intros _; exact H | intro X; discriminate X].
+    + intros [H _]. exact (H eq_refl).
+  - rewrite (arr_cell_iff cfg a r MStringlikeArray _ GS eq_refl). cbn [guard_holds]. split.
+    + intro H. split; [intro X; discriminate X | intros _; exact H].
+    + intros [_ H]. exact (H eq_refl).
+Qed.
+
+Lemma value_cell_exec_plain cfg f r m a c :
+  is_value_rule r = true -> m = MKeyableObject \/ m = MNonKeyableObject \/ m = MChildContainerEnded -> e_rule (cur c) = r ->
+  exec_prims cfg (call_rule f cfg) r m a (dispatch r m) c = Some (set_cur c (with_rule (cur c) (next_rule r))).
+Proof.
+  intros V M R.
+  assert (In m leaf_meths) as I by (destruct M as [->|[->| ->]]; cbn; tauto).
+  assert (m = MNull -> null_allowed r = true) as HN by (intro X; subst; destruct M as [M|[M|M]]; discriminate M).
+  apply value_cell_exec; auto. apply leaf_cell_guards; auto.
+  split; intro X; subst; destruct M as [M|[M|M]]; discriminate M.
 Qed.
 
 Lemma nno_state_view c : view (nno_state c) = (bump (cur c), stack c, depth c, objects c + 1, rectypes c, regs c).
@@ -242,18 +317,19 @@ Qed.
 
 (* S2: a value delivered in one event *)
 Lemma step_leaf cfg c e r :
-  e_rule (cur c) = r -> is_value_rule r = true -> leaf_ok cfg e = true ->
-  (null_allowed r = false -> is_null_event e = false) ->
+  e_rule (cur c) = r -> is_value_rule r = true -> leaf_wf cfg (pos_of_rule r) e = true ->
   room (cur c) -> objects c + 1 <= max_object_count cfg ->
   exists c', rstep cfg c e = Some (c', [nn e]) /\
              view c' = (adv_entry (cur c), stack c, depth c, objects c + 1, rectypes c, regs c).
 Proof.
-  intros R V L N Rm O. destruct (leaf_plan cfg e L) as [pl [P [P1 [P2 [P3 [P4 [P5 P6]]]]]]].
+  intros R V L Rm O. unfold leaf_wf in L. apply andb_true_iff in L as [L N].
+  destruct (leaf_plan cfg _ e L) as [pl [P [P1 [P2 [P3 [P4 [P5 P6]]]]]]].
+  assert (p_meth pl = MNull -> null_allowed r = true) as HN.
+  { intro M. unfold null_allowed. destruct (null_ok (pos_of_rule r)); [reflexivity|]. rewrite (P4 M) in N. discriminate N. }
   rewrite rstep_plan, P. unfold plan_step. rewrite P1, (nno_ok cfg c Rm O).
   rewrite (call_current_cell cfg _ _ (nno_state c) r) by (cbn; exact R).
-  rewrite (value_cell_exec cfg 5 r (p_meth pl) (p_args pl) (nno_state c) V P3); auto.
-  - rewrite P2. eexists. split; [reflexivity|]. unfold view. rsimpl. unfold adv_entry. rewrite R. reflexivity.
-  - intro M. destruct (null_allowed r) eqn:NA; [reflexivity|]. rewrite (N eq_refl) in P4. specialize (P4 M). discriminate.
+  rewrite (value_cell_exec cfg 5 r (p_meth pl) (p_args pl) (nno_state c) V P3 HN); [| apply leaf_cell_guards; auto | cbn; exact R].
+  rewrite P2. eexists. split; [reflexivity|]. unfold view. rsimpl. unfold adv_entry. rewrite R. reflexivity.
 Qed.
 
 (* S3: container begin events *)
@@ -329,7 +405,7 @@ Proof.
   { destruct (e_expected (cur c)); [subst; rewrite N.eqb_refl; reflexivity | reflexivity]. }
   rewrite T. unfold end_container_like, unstack_rule. rsimpl. rewrite S. rsimpl. rewrite R.
   change (call_rule 5 cfg r MChildContainerEnded) with (fun a c => exec_prims cfg (call_rule 4 cfg) r MChildContainerEnded a (dispatch r MChildContainerEnded) c).
-  cbv beta. rewrite (value_cell_exec cfg 4 r MChildContainerEnded); auto; try discriminate; [|cbn; tauto].
+  cbv beta. rewrite (value_cell_exec_plain cfg 4 r MChildContainerEnded); [| exact V | tauto | exact R].
   eexists. split; [reflexivity|]. unfold view. rsimpl. reflexivity.
 Qed.
 
@@ -345,46 +421,46 @@ Proof.
   intro H. apply orb_true_iff in H as [H|H]; apply N.eqb_eq in H; subst; vm_compute; split; reflexivity.
 Qed.
 
+Definition key_rule (rk : rule) (tgt : option rule) : Prop :=
+  dispatch rk MKeyableObject = PNotifyKeyArg :: change_cell tgt /\
+  dispatch rk MStringlikeArray = PValidateFullArrayStringlikeKeyable :: PNotifyKeyFromArrayData :: change_cell tgt /\
+  dispatch rk MArray = PValidateFullArrayKeyable :: PNotifyKeyFromArrayData :: change_cell tgt.
+
 Lemma step_key_gen cfg c e k rk tgt :
-  e_rule (cur c) = rk ->
-  dispatch rk MKeyableObject = PNotifyKeyArg :: change_cell tgt ->
-  dispatch rk MStringlikeArray = PValidateFullArrayStringlikeKeyable :: PNotifyKeyFromArrayData :: change_cell tgt ->
+  e_rule (cur c) = rk -> key_rule rk tgt ->
   key_ok cfg e = true -> key_of e = Some k ->
   existsb (nkey_eqb (norm_key k)) (e_keys (cur c)) = false ->
   room (cur c) -> objects c + 1 <= max_object_count cfg ->
   exists c', rstep cfg c e = Some (c', [e]) /\
              view c' = (keyed (cur c) k tgt, stack c, depth c, objects c + 1, rectypes c, regs c).
 Proof.
-  intros R C1 C2 KO K Fr Rm O. subst rk. rewrite rstep_plan. unfold key_ok in KO. rewrite K in KO.
+  intros R [C1 [C2 C3]] KO K Fr Rm O. subst rk. rewrite rstep_plan. unfold key_ok in KO. rewrite K in KO.
   destruct e as [| |v| |m t| |b| | |n|n|z|[z|]|bits|[bf|]|d|[d|]|s|b|s| | |id|id| | | |id|id|t cnt d|t d|mt d|ct d|ct d|t|mt|t ct|n m|d];
     cbn [key_of] in K; try discriminate K.
   all: try (inv_some; cbn [ev_plan]; unfold mkplan, plan_step; cbn [p_nno p_meth p_args p_out]; rewrite (nno_ok cfg c Rm O);
             rewrite (call_current_cell cfg _ _ (nno_state c) (e_rule (cur c))) by reflexivity; rewrite C1;
             cbn [exec_prims exec_prim key_args a_key]; unfold notify_key, nno_state, bump; rsimpl; rewrite Fr;
             destruct tgt; cbn [change_cell exec_prims exec_prim]; eexists; split; reflexivity).
-  (* a string or a resource id *)
-  assert ((t =? AT_String) || (t =? AT_ResourceID) = true) as ST.
-  { destruct (t =? AT_String); [reflexivity|]. destruct (t =? AT_ResourceID); [reflexivity | discriminate K]. }
-  destruct (string_types_ok t ST) as [A1 A2].
-  cbn [ev_plan]. rewrite A1. unfold mkplan, plan_step. cbn [p_nno p_meth p_args p_out]. rewrite (nno_ok cfg c Rm O).
-  rewrite (call_current_cell cfg _ _ (nno_state c) (e_rule (cur c))) by reflexivity. rewrite C2.
-  cbn [exec_prims exec_prim array_args a_arrty a_data]. rewrite A2, KO. cbn [andb]. unfold key_from_array.
-  destruct (t =? AT_String) eqn:T1.
-  - inv_some. unfold notify_key, nno_state, bump; rsimpl. rewrite Fr.
-    destruct tgt; cbn [change_cell exec_prims exec_prim]; eexists; split; reflexivity.
-  - destruct (t =? AT_ResourceID) eqn:T2; [|discriminate K]. inv_some. unfold notify_key, nno_state, bump; rsimpl. rewrite Fr.
-    destruct tgt; cbn [change_cell exec_prims exec_prim]; eexists; split; reflexivity.
+  (* a string or a resource id, as an array or as a string-like array *)
+  all: assert ((t =? AT_String) || (t =? AT_ResourceID) = true) as ST
+         by (destruct (t =? AT_String); [reflexivity|]; destruct (t =? AT_ResourceID); [reflexivity | discriminate K]);
+       destruct (string_types_ok t ST) as [A1 A2];
+       cbn [ev_plan]; rewrite A1; unfold mkplan, plan_step; cbn [p_nno p_meth p_args p_out]; rewrite (nno_ok cfg c Rm O);
+       rewrite (call_current_cell cfg _ _ (nno_state c) (e_rule (cur c))) by reflexivity; rewrite ?C2, ?C3;
+       cbn [exec_prims exec_prim array_args a_arrty a_data a_count]; rewrite A2, KO; cbn [andb]; unfold key_from_array;
+       (destruct (t =? AT_String) eqn:T1;
+        [ inv_some; unfold notify_key, nno_state, bump; rsimpl; rewrite Fr;
+          destruct tgt; cbn [change_cell exec_prims exec_prim]; eexists; split; reflexivity
+        | destruct (t =? AT_ResourceID) eqn:T2; [|discriminate K]; inv_some; unfold notify_key, nno_state, bump; rsimpl; rewrite Fr;
+          destruct tgt; cbn [change_cell exec_prims exec_prim]; eexists; split; reflexivity ]).
 Qed.
 
-Lemma key_cells :
-  dispatch RMapKey MKeyableObject = PNotifyKeyArg :: change_cell (Some RMapValue) /\
-  dispatch RMapKey MStringlikeArray = PValidateFullArrayStringlikeKeyable :: PNotifyKeyFromArrayData :: change_cell (Some RMapValue) /\
-  dispatch RRecordType MKeyableObject = PNotifyKeyArg :: change_cell None /\
-  dispatch RRecordType MStringlikeArray = PValidateFullArrayStringlikeKeyable :: PNotifyKeyFromArrayData :: change_cell None.
+Lemma key_cells : key_rule RMapKey (Some RMapValue) /\ key_rule RRecordType None.
 Proof.
   pose proof other_cells as T. do 4 (apply andb_true_iff in T as [T _]).
-  apply andb_true_iff in T as [T T4]. apply andb_true_iff in T as [T T3]. apply andb_true_iff in T as [T T2]. apply andb_true_iff in T as [_ T1].
-  repeat split; apply prims_eqb_eq; assumption.
+  apply andb_true_iff in T as [T T6]. apply andb_true_iff in T as [T T5]. apply andb_true_iff in T as [T T4].
+  apply andb_true_iff in T as [T T3]. apply andb_true_iff in T as [T T2]. apply andb_true_iff in T as [_ T1].
+  unfold key_rule. repeat split; apply prims_eqb_eq; assumption.
 Qed.
 
 
@@ -575,8 +651,8 @@ Qed.
 (* ------------------------------------------------------------------------- *)
 (* A marked value delivered in one event                                      *)
 (* ------------------------------------------------------------------------- *)
-Lemma leaf_plan2 cfg e pl :
-  leaf_ok cfg e = true -> ev_plan cfg e = Some pl ->
+Lemma leaf_plan2 cfg ps e pl :
+  leaf_ok cfg ps e = true -> ev_plan cfg e = Some pl ->
   p_meth pl <> MChildContainerEnded /\
   (p_meth pl = MKeyableObject \/ p_meth pl = MNonKeyableObject -> N.land (a_dtype (p_args pl)) Allow_Any <> 0) /\
   (markable (VLeaf e) = true -> p_meth pl = MArray \/ p_meth pl = MStringlikeArray ->
@@ -604,10 +680,7 @@ Proof. intros ->. reflexivity. Qed.
 (* unstack the marker entry, hand the value to the parent rule, register the marker *)
 Lemma marked_tail cfg f c1 p st r m' a' dt mk fw :
   stack c1 = p :: st -> e_rule p = r -> is_value_rule r = true -> In m' leaf_meths -> (m' = MNull -> null_allowed r = true) ->
-  (m' = MArray -> validate_full_array_any cfg (a_arrty a') (a_count a') (a_data a') = true /\
-                  assert_array_type (a_arrty a') Allow_NonNull = true /\ assert_array_type (a_arrty a') Allow_Any = true) ->
-  (m' = MStringlikeArray -> validate_full_array_stringlike cfg (a_arrty a') (a_data a') = true /\
-                  assert_array_type (a_arrty a') Allow_NonNull = true /\ assert_array_type (a_arrty a') Allow_Any = true) ->
+  forallb (guard_holds cfg a') (dispatch r m') = true ->
   Reg c1 mk fw -> id_mem (marker_id c1) mk = false -> refcount c1 + 1 <= max_local_reference_count cfg ->
   N.land dt Allow_Any <> 0 ->
   exists c', match unstack_rule c1 with
@@ -621,9 +694,9 @@ Lemma marked_tail cfg f c1 p st r m' a' dt mk fw :
              rectypes c' = rectypes c1 /\ refcount c' = refcount c1 + 1 /\
              Reg c' (marker_id c1 :: mk) (id_remove (marker_id c1) fw).
 Proof.
-  intros S R V M HN HA HS Rg Nm Rc Dt. rewrite (unstack_cons _ _ _ S).
+  intros S R V M HN HG Rg Nm Rc Dt. rewrite (unstack_cons _ _ _ S).
   rewrite (call_rule_cell f cfg (set_cur (set_stack c1 st) p) r m' a') by exact R.
-  rewrite (value_cell_exec cfg f r m' a' _ V M HN HA HS) by exact R. rsimpl.
+  rewrite (value_cell_exec cfg f r m' a' _ V M HN HG) by exact R. rsimpl.
   match goal with |- context [mark_object cfg dt ?c3] =>
     destruct (mark_object_ok cfg dt c3 mk fw) as [mkl [fwl [E RL]]]; [exact Rg | exact Nm | exact Rc | exact Dt |] end.
   rewrite E. eexists. split; [reflexivity|]. rsimpl. do 6 (split; [reflexivity|]). exact RL.
@@ -631,16 +704,18 @@ Qed.
 
 Lemma step_marked_leaf cfg c e id p st r mk fw :
   is_marker_entry (cur c) id -> stack c = p :: st -> e_rule p = r -> is_value_rule r = true -> marker_id c = id ->
-  leaf_ok cfg e = true -> markable (VLeaf e) = true -> (null_allowed r = false -> is_null_event e = false) ->
+  leaf_wf cfg (pos_of_rule r) e = true -> markable (VLeaf e) = true ->
   objects c + 1 <= max_object_count cfg ->
   Reg c mk fw -> id_mem id mk = false -> refcount c + 1 <= max_local_reference_count cfg ->
   exists c', rstep cfg c e = Some (c', [nn e]) /\
              cur c' = with_rule p (next_rule r) /\ stack c' = st /\ depth c' = depth c /\ objects c' = objects c + 1 /\
              rectypes c' = rectypes c /\ refcount c' = refcount c + 1 /\ Reg c' (id :: mk) (id_remove id fw).
 Proof.
-  intros [M1 [M2 M3]] S R V Mi L Mk N O Rg Nm Rc.
-  destruct (leaf_plan cfg e L) as [pl [P [P1 [P2 [P3 [P4 [P5 P6]]]]]]].
-  destruct (leaf_plan2 cfg e pl L P) as [Q1 [Q2 Q3]].
+  intros [M1 [M2 M3]] S R V Mi L0 Mk O Rg Nm Rc. unfold leaf_wf in L0. apply andb_true_iff in L0 as [L N].
+  destruct (leaf_plan cfg _ e L) as [pl [P [P1 [P2 [P3 [P4 [P5 P6]]]]]]].
+  destruct (leaf_plan2 cfg _ e pl L P) as [Q1 [Q2 Q3]].
+  assert (p_meth pl = MNull -> null_allowed r = true) as HN.
+  { intro M. unfold null_allowed. destruct (null_ok (pos_of_rule r)); [reflexivity|]. rewrite (P4 M) in N. discriminate N. }
   rewrite rstep_plan, P. unfold plan_step. rewrite P1.
   rewrite (nno_ok cfg c); [| unfold room; rewrite M2; exact I | exact O]. rewrite P2.
   rewrite (call_current_cell cfg _ _ (nno_state c) RMarkedObjectAnyType) by (cbn; exact M1).
@@ -659,36 +734,40 @@ Proof.
                      cur c' = with_rule p (next_rule r) /\ stack c' = st /\ depth c' = depth c /\ objects c' = objects c + 1 /\
                      rectypes c' = rectypes c /\ refcount c' = refcount c + 1 /\ Reg c' (id :: mk) (id_remove id fw)) as Fin.
   { intros c' H. cbn [nno_state marker_id set_objects set_cur depth objects rectypes refcount] in H. rewrite Mi in H. exact H. }
+  assert (forall a', forallb (guard_holds cfg a') (dispatch r MKeyableObject) = true) as GK.
+  { intro a'. apply leaf_cell_guards; [exact V | cbn; tauto | intro X; discriminate X | split; intro X; discriminate X]. }
   cbn [In leaf_meths] in P3. destruct P3 as [M|[M|[M|[M|[M|[M|[]]]]]]]; symmetry in M; try contradiction.
   - (* keyable *)
     rewrite M, T1. cbn [exec_prims exec_prim].
     destruct (marked_tail cfg 4 (nno_state c) p st r MKeyableObject (p_args pl) (a_dtype (p_args pl)) mk fw S1 R V) as [c' [E H]];
-      try assumption; try (intro X; discriminate X); [cbn; tauto | apply Q2; auto |].
+      try assumption; try (intro X; discriminate X); [cbn; tauto | apply GK | apply Q2; auto |].
     rewrite E. exists c'. split; [reflexivity | apply Fin; exact H].
   - (* non-keyable *)
     rewrite M, T2. cbn [exec_prims exec_prim].
     destruct (marked_tail cfg 4 (nno_state c) p st r MKeyableObject (with_key (p_args pl) (Some (RkString []))) (a_dtype (p_args pl)) mk fw S1 R V) as [c' [E H]];
-      try assumption; try (intro X; discriminate X); [cbn; tauto | apply Q2; auto |].
+      try assumption; try (intro X; discriminate X); [cbn; tauto | apply GK | apply Q2; auto |].
     rewrite E. exists c'. split; [reflexivity | apply Fin; exact H].
   - (* null *)
     rewrite M, T3. cbn [exec_prims exec_prim].
     destruct (marked_tail cfg 4 (nno_state c) p st r MNull (p_args pl) DT_Null mk fw S1 R V) as [c' [E H]];
-      try assumption; try (intro X; discriminate X); [cbn; tauto | | ].
-    { intros _. destruct (null_allowed r) eqn:NA; [reflexivity|]. rewrite (N eq_refl) in P4. specialize (P4 M). discriminate. }
+      try assumption; try (intro X; discriminate X); [cbn; tauto | intros _; exact (HN M) | |].
+    { apply leaf_cell_guards; [exact V | cbn; tauto | intros _; exact (HN M) | split; intro X; discriminate X]. }
     rewrite E. exists c'. split; [reflexivity | apply Fin; exact H].
   - (* array *)
     rewrite M, T4. cbn [exec_prims exec_prim mask_value]. pose proof (Q3 Mk (or_introl M)) as AM. rewrite AM.
     unfold assert_array_type in AM. destruct (array_dtype (a_arrty (p_args pl))) as [dt|] eqn:AD; [|discriminate].
     apply negb_true_iff in AM. apply N.eqb_neq in AM. cbv beta iota.
     destruct (marked_tail cfg 4 (nno_state c) p st r MArray (p_args pl) dt mk fw S1 R V) as [c' [E H]];
-      try assumption; try (intro X; discriminate X); [cbn; tauto | intros _; apply P5; exact M | apply markable_any; exact AM |].
+      try assumption; try (intro X; discriminate X); [cbn; tauto | | apply markable_any; exact AM |].
+    { apply leaf_cell_guards; [exact V | cbn; tauto | intro X; discriminate X | split; [intros _; exact (P5 M) | intro X; discriminate X]]. }
     rewrite E. exists c'. split; [reflexivity | apply Fin; exact H].
   - (* string-like array *)
     rewrite M, T5. cbn [exec_prims exec_prim mask_value]. pose proof (Q3 Mk (or_intror M)) as AM. rewrite AM.
     unfold assert_array_type in AM. destruct (array_dtype (a_arrty (p_args pl))) as [dt|] eqn:AD; [|discriminate].
     apply negb_true_iff in AM. apply N.eqb_neq in AM. cbv beta iota.
     destruct (marked_tail cfg 4 (nno_state c) p st r MStringlikeArray (p_args pl) dt mk fw S1 R V) as [c' [E H]];
-      try assumption; try (intro X; discriminate X); [cbn; tauto | intros _; apply P6; exact M | apply markable_any; exact AM |].
+      try assumption; try (intro X; discriminate X); [cbn; tauto | | apply markable_any; exact AM |].
+    { apply leaf_cell_guards; [exact V | cbn; tauto | intro X; discriminate X | split; [intro X; discriminate X | intros _; exact (P6 M)]]. }
     rewrite E. exists c'. split; [reflexivity | apply Fin; exact H].
 Qed.
 
@@ -767,7 +846,7 @@ Proof.
   match goal with |- context [call_rule 4 cfg ?rr MChildContainerEnded ?aa ?cc] =>
     change (call_rule 4 cfg rr MChildContainerEnded aa cc) with (call_rule 4 cfg (e_rule (cur cc)) MChildContainerEnded aa cc);
     rewrite (call_rule_cell 3 cfg cc r MChildContainerEnded aa) by exact R;
-    rewrite (value_cell_exec cfg 3 r MChildContainerEnded aa cc V) by (first [exact R | cbn; tauto | intro Y; discriminate Y])
+    rewrite (value_cell_exec_plain cfg 3 r MChildContainerEnded aa cc V) by (first [exact R | tauto])
   end.
   eexists. split; [reflexivity|]. rsimpl. do 6 (split; [reflexivity|]). exact RL.
 Qed.
@@ -855,7 +934,7 @@ Definition val_complete (cfg : rcfg) (v : val) : Prop :=
   forall c nnull mk fw mk' fw',
     wf_val cfg (rectypes c) nnull v = true ->
     is_value_rule (e_rule (cur c)) = true ->
-    (null_allowed (e_rule (cur c)) = false -> nnull = true) ->
+    nnull = pos_of_rule (e_rule (cur c)) ->
     (e_rule (cur c) = RTopLevel -> top_ok v = true) ->
     room (cur c) ->
     objects c + object_usage (flatten v) <= max_object_count cfg ->
@@ -871,7 +950,7 @@ Definition marked_complete (cfg : rcfg) (v : val) : Prop :=
   forall c id p st nnull mk fw mk' fw',
     markable v = true -> wf_val cfg (rectypes c) nnull v = true ->
     is_marker_entry (cur c) id -> stack c = p :: st -> is_value_rule (e_rule p) = true -> marker_id c = id ->
-    (null_allowed (e_rule p) = false -> nnull = true) ->
+    nnull = pos_of_rule (e_rule p) ->
     objects c + object_usage (flatten v) <= max_object_count cfg ->
     depth c + height v <= max_container_depth cfg ->
     Reg c mk fw -> reg_val v (mk, fw) = Some (mk', fw') -> id_mem id mk' = false ->
@@ -896,8 +975,8 @@ Proof. unfold same_upto. intros H1 H2. decompose [and] H1. decompose [and] H2. r
 Lemma items_complete cfg items :
   Forall (val_complete cfg) items ->
   forall c mk fw mk' fw', is_value_rule (e_rule (cur c)) = true -> next_rule (e_rule (cur c)) = e_rule (cur c) ->
-    null_allowed (e_rule (cur c)) = true ->
-    forallb (wf_val cfg (rectypes c) false) items = true ->
+    pos_of_rule (e_rule (cur c)) = PPlain ->
+    forallb (wf_val cfg (rectypes c) PPlain) items = true ->
     match e_expected (cur c) with Some x => e_count (cur c) + N.of_nat (length items) <= x | None => True end ->
     objects c + object_usage (flat_map flatten items) <= max_object_count cfg ->
     depth c + list_max (map height items) <= max_container_depth cfg ->
@@ -913,8 +992,8 @@ Proof.
     rewrite object_usage_app in O. rewrite marker_usage_app in Rc.
     destruct (reg_val v (mk, fw)) as [[mk1 fw1]|] eqn:R1; [|discriminate].
     assert (e_rule (cur c) <> RTopLevel) as NT by (intro X; rewrite X in Nx; discriminate Nx).
-    destruct (Hv c false mk fw mk1 fw1 W1 V) as [c1 [S1 [V1 [Rg1 Rc1]]]]; try assumption.
-    { rewrite NA. discriminate. } { intro X. contradiction. }
+    destruct (Hv c PPlain mk fw mk1 fw1 W1 V) as [c1 [S1 [V1 [Rg1 Rc1]]]]; try assumption.
+    { symmetry. exact NA. } { intro X. contradiction. }
     { unfold room. destruct (e_expected (cur c)); [lia | exact I]. }
     { lia. } { fold (list_max (map height items)) in D. lia. } { lia. }
     unfold core in V1. inversion V1 as [[E1 E2 E3 E4 E5]]. clear V1.
@@ -958,7 +1037,7 @@ Proof. destruct k; cbn; try discriminate; auto. Qed.
 Lemma entries_complete cfg entries :
   Forall (fun en => val_complete cfg (snd en)) entries ->
   forall c mk fw mk' fw', e_rule (cur c) = RMapKey -> e_expected (cur c) = None ->
-    forallb (fun en => let '(_, k, v) := en in key_ok cfg k && wf_val cfg (rectypes c) false v) entries = true ->
+    forallb (fun en => let '(_, k, v) := en in key_ok cfg k && wf_val cfg (rectypes c) PPlain v) entries = true ->
     nkeys_distinct (map (fun en => let '(_, k, _) := en in nkey_of k) entries) = true ->
     (forall tv k v nk, In (tv, k, v) entries -> nkey_of k = Some nk -> existsb (nkey_eqb nk) (e_keys (cur c)) = false) ->
     objects c + object_usage (flat_map entry_events entries) <= max_object_count cfg ->
@@ -983,14 +1062,14 @@ Proof.
     (* trivia *)
     rewrite <- app_assoc, steps_app, steps_trivia by (rewrite R; reflexivity).
     (* key *)
-    destruct key_cells as [C1 [C2 _]].
-    destruct (step_key_gen cfg c k rk RMapKey (Some RMapValue) R C1 C2 Wk K) as [c1 [S1 V1]].
+    destruct key_cells as [KM _].
+    destruct (step_key_gen cfg c k rk RMapKey (Some RMapValue) R KM Wk K) as [c1 [S1 V1]].
     { eapply Fr; [left; reflexivity | exact NK]. } { unfold room. rewrite X. exact I. } { lia. }
     cbn [app steps]. rewrite S1. apply view_core in V1 as [V1 G1]. unfold core in V1. inversion V1 as [[E1 E2 E3 E4 E5]]. clear V1.
     unfold regs in G1. inversion G1 as [[G11 G12 G13]].
     (* value *)
-    destruct (Hv c1 false mk fw mk1 fw1) as [c2 [S2 [V2 [Rg2 Rc2]]]].
-    { rewrite E5. exact Wv. } { rewrite E1. reflexivity. } { rewrite E1. cbn. discriminate. } { rewrite E1. cbn. discriminate. }
+    destruct (Hv c1 PPlain mk fw mk1 fw1) as [c2 [S2 [V2 [Rg2 Rc2]]]].
+    { rewrite E5. exact Wv. } { rewrite E1. reflexivity. } { rewrite E1. reflexivity. } { rewrite E1. cbn. discriminate. }
     { unfold room. rewrite E1. cbn. rewrite X. exact I. } { rewrite E4. lia. }
     { rewrite E3. fold (list_max (map (fun en => let '(_, _, v) := en in height v) entries)) in D. lia. }
     { eapply Reg_regs; [exact G1 | exact Rg]. } { exact R1. } { rewrite G13. lia. }
@@ -1019,7 +1098,7 @@ Proof.
       split; [repeat split; try congruence; rewrite U3, F4, E4; lia|]. split; [exact Rg3 | rewrite Rc3, Rc2, G13; lia].
 Qed.
 
-Lemma leaf_counts cfg e : leaf_ok cfg e = true -> counts_object e = true /\ is_marker e = false.
+Lemma leaf_counts cfg ps e : leaf_ok cfg ps e = true -> counts_object e = true /\ is_marker e = false.
 Proof. destruct e; cbn; try discriminate; auto. Qed.
 
 Lemma value_rule_trivia r : is_value_rule r = true -> trivia_rule r = true.
@@ -1139,23 +1218,21 @@ Proof.
   - (* leaf *)
     intro e. split.
     + intros c nnull mk fw mk' fw' W V NN TO Rm O D Rg Rl Rc. cbn [wf_val flatten reg_val] in *. inv_some.
-      apply andb_true_iff in W as [L Nl]. destruct (leaf_counts _ _ L) as [Lc Lm].
+      try subst nnull. pose proof W as W0. unfold leaf_wf in W0. apply andb_true_iff in W0 as [L Nl]. destruct (leaf_counts _ _ _ L) as [Lc Lm].
       rewrite object_usage_cons, Lc in O |- *. rewrite marker_usage_cons, Lm in Rc |- *.
       change (object_usage []) with 0 in *. change (marker_usage []) with 0 in *.
       change (if true then 1 else 0) with 1 in *. change (if false then 1 else 0) with 0 in *.
-      destruct (step_leaf cfg c e _ eq_refl V L) as [c' [S V']]; try assumption; try (clear -O; lia).
-      * intro NA. rewrite (NN NA) in Nl. cbn in Nl. apply negb_true_iff in Nl. exact Nl.
+      destruct (step_leaf cfg c e _ eq_refl V W) as [c' [S V']]; try assumption; try (clear -O; lia).
       * apply view_core in V' as [V' G']. unfold regs in G'. inversion G' as [[G1 G2 G3]].
         exists c'. cbn [steps]. rewrite S. split; [reflexivity|]. split; [rewrite V'; repeat f_equal; clear; lia|].
         split; [eapply Reg_regs; [exact G' | exact Rg] | rewrite G3; clear; lia].
     + intros c id p st nnull mk fw mk' fw' Mk W M S V Mi NN O D Rg Rl Ni Rc. cbn [wf_val flatten reg_val] in *. injection Rl as <- <-.
-      apply andb_true_iff in W as [L Nl]. destruct (leaf_counts _ _ L) as [Lc Lm].
+      try subst nnull. pose proof W as W0. unfold leaf_wf in W0. apply andb_true_iff in W0 as [L Nl]. destruct (leaf_counts _ _ _ L) as [Lc Lm].
       rewrite object_usage_cons, Lc in O |- *. rewrite marker_usage_cons, Lm in Rc |- *.
       change (object_usage []) with 0 in *. change (marker_usage []) with 0 in *.
       change (if true then 1 else 0) with 1 in *. change (if false then 1 else 0) with 0 in *.
-      destruct (step_marked_leaf cfg c e id p st (e_rule p) mk fw M S eq_refl V Mi L Mk) as [c' [S' [H1 [H2 [H3 [H4 [H5 [H6 H7]]]]]]]];
+      destruct (step_marked_leaf cfg c e id p st (e_rule p) mk fw M S eq_refl V Mi W Mk) as [c' [S' [H1 [H2 [H3 [H4 [H5 [H6 H7]]]]]]]];
         try assumption; try (clear -O; lia); try (clear -Rc; lia).
-      * intro NA. rewrite (NN NA) in Nl. cbn in Nl. apply negb_true_iff in Nl. exact Nl.
       * exists c'. cbn [steps]. rewrite S'. split; [reflexivity|]. split; [unfold core; rewrite H1, H2, H3, H4, H5; repeat f_equal; clear; lia|].
         split; [exact H7 | rewrite H6; clear; lia].
   - (* trivia *)
@@ -1201,7 +1278,7 @@ Proof.
       rewrite object_usage_app in O |- *. rewrite marker_usage_app in Rc |- *.
       assert (depth c1 + height v <= max_container_depth cfg /\ depth c1 + list_max (map height items) <= max_container_depth cfg) as [D1 D2]
         by (clear -D; lia). clear D.
-      destruct (IHv c1 false mk fw mk1 fw1 W1) as [c2 [S2 [V2 [Rg2 Rc2]]]]; try solve [side E]; try solve [clear -O; lia]; try solve [clear -Rc; lia].
+      destruct (IHv c1 PDesc mk fw mk1 fw1 W1) as [c2 [S2 [V2 [Rg2 Rc2]]]]; try solve [side E]; try solve [clear -O; lia]; try solve [clear -Rc; lia].
       unfold core in V2. inversion V2 as [[F1 F2 F3 F4 F5]]. clear V2.
       assert (cur c2 = adv_entry (mk_entry RNode DT_List None)) as F1' by (rewrite F1, E; reflexivity).
       destruct (items_complete cfg items IH c2 mk1 fw1 mk' fw') as [c3 [S3 [[U1 [U2 [U3 [U4 [U5 [U6 [U7 [U8 U9]]]]]]]] [Rg3 Rc3]]]];
@@ -1226,14 +1303,14 @@ Proof.
       rewrite !object_usage_app in O |- *. rewrite !marker_usage_app in Rc |- *.
       assert (depth c1 + height s <= max_container_depth cfg /\ depth c1 + height d <= max_container_depth cfg /\
               depth c1 + height t <= max_container_depth cfg) as [D1 [D2 D3]] by (clear -D; lia). clear D.
-      destruct (IHs c1 true mk fw mk1 fw1 W1) as [c2 [S2 [V2 [Rg2 Rc2]]]]; try solve [side E]; try solve [clear -O; lia]; try solve [clear -Rc; lia].
+      destruct (IHs c1 PSrc mk fw mk1 fw1 W1) as [c2 [S2 [V2 [Rg2 Rc2]]]]; try solve [side E]; try solve [clear -O; lia]; try solve [clear -Rc; lia].
       unfold core in V2. inversion V2 as [[F1 F2 F3 F4 F5]]. clear V2.
       assert (cur c2 = adv_entry (mk_entry REdgeSource DT_Edge (Some 3))) as F1' by (rewrite F1, E; reflexivity).
-      destruct (IHd c2 false mk1 fw1 mk2 fw2) as [c3 [S3 [V3 [Rg3 Rc3]]]]; try solve [side F1']; try solve [rewrite F5; exact W2];
+      destruct (IHd c2 PDesc mk1 fw1 mk2 fw2) as [c3 [S3 [V3 [Rg3 Rc3]]]]; try solve [side F1']; try solve [rewrite F5; exact W2];
         try solve [rewrite F4; clear -O; lia]; try solve [rewrite F3; exact D2]; try solve [rewrite Rc2; clear -Rc; lia].
       unfold core in V3. inversion V3 as [[G1 G2 G3 G4 G5]]. clear V3.
       assert (cur c3 = adv_entry (adv_entry (mk_entry REdgeSource DT_Edge (Some 3)))) as G1' by (rewrite G1, F1, E; reflexivity).
-      destruct (IHt c3 true mk2 fw2 mk' fw') as [c4 [S4 [V4 [Rg4 Rc4]]]]; try solve [side G1']; try solve [rewrite G5, F5; exact W3];
+      destruct (IHt c3 PDst mk2 fw2 mk' fw') as [c4 [S4 [V4 [Rg4 Rc4]]]]; try solve [side G1']; try solve [rewrite G5, F5; exact W3];
         try solve [rewrite G4, F4; clear -O; lia]; try solve [rewrite G3, F3; exact D3]; try solve [rewrite Rc3, Rc2; clear -Rc; lia].
       unfold core in V4. inversion V4 as [[H1 H2 H3 H4 H5]]. clear V4.
       exists c4. split; [rewrite steps_app, S2, steps_app, S3; exact S4|].
@@ -1267,7 +1344,7 @@ Proof.
     cbn [counts_object is_marker] in O, Rc |- *. change (if true then 1 else 0) with 1 in *.
     destruct (step_marker cfg c id _ eq_refl V W1 Rm) as [c1 [S1 [M1 [E2 [E3 [E4 [E5 [G1 Mi]]]]]]]]; [clear -O; lia|].
     pose proof G1 as G1'. unfold regs in G1'. inversion G1' as [[G11 G12 G13]].
-    destruct (IH c1 id (bump (cur c)) (stack c) nnull mk fw mk1 fw1 W2) as [c2 [S2 [V2 [Rg2 Rc2]]]]; try assumption.
+    destruct (IH c1 id (bump (cur c)) (stack c) (pos_of_rule (e_rule (cur c))) mk fw mk1 fw1 W2) as [c2 [S2 [V2 [Rg2 Rc2]]]]; try assumption; try reflexivity.
     { rewrite E5. exact W3. } { rewrite E4. clear -O. lia. } { rewrite E3. exact D. }
     { eapply Reg_regs; [exact G1 | exact Rg]. } { rewrite G13. clear -Rc. lia. }
     exists c2. split; [cbn [steps]; rewrite S1, steps_app, (steps_marker_pads cfg c1 id n M1); exact S2|].
@@ -1335,26 +1412,30 @@ Qed.
 Lemma key_not_rectype k rk : key_of k = Some rk -> forall id, k <> ERecordType id.
 Proof. intros K id ->. discriminate K. Qed.
 
+Definition field_events (f : list trivia * event) : list event := map trivia_event (fst f) ++ [snd f].
+
 Lemma fields_complete cfg fields : forall c,
   e_rule (cur c) = RRecordType -> e_expected (cur c) = None ->
-  forallb (key_ok cfg) fields = true -> nkeys_distinct (map nkey_of fields) = true ->
-  (forall k nk, In k fields -> nkey_of k = Some nk -> existsb (nkey_eqb nk) (e_keys (cur c)) = false) ->
+  forallb (fun f => key_ok cfg (snd f)) fields = true -> nkeys_distinct (map (fun f => nkey_of (snd f)) fields) = true ->
+  (forall f nk, In f fields -> nkey_of (snd f) = Some nk -> existsb (nkey_eqb nk) (e_keys (cur c)) = false) ->
   objects c + N.of_nat (length fields) <= max_object_count cfg ->
-  exists c', steps cfg c fields = Some c' /\
+  exists c', steps cfg c (flat_map field_events fields) = Some c' /\
     stack c' = stack c /\ depth c' = depth c /\ objects c' = objects c + N.of_nat (length fields) /\
     rectypes c' = rectypes c /\ regs c' = regs c /\ rectype_name c' = rectype_name c /\
     e_rule (cur c') = RRecordType /\ e_dtype (cur c') = e_dtype (cur c) /\ e_expected (cur c') = None /\
     e_count (cur c') = e_count (cur c) + N.of_nat (length fields).
 Proof.
-  induction fields as [|k fields IH]; intros c R X W Dk Fr O.
+  induction fields as [|[tv k] fields IH]; intros c R X W Dk Fr O.
   - exists c. split; [reflexivity|]. cbn. repeat split; auto; lia.
-  - cbn [forallb map nkeys_distinct length] in *. apply andb_true_iff in W as [Wk W].
+  - cbn [forallb map nkeys_distinct length fst snd] in *. apply andb_true_iff in W as [Wk W].
     destruct (key_ok_key_of _ _ Wk) as [rk K].
     assert (nkey_of k = Some (norm_key rk)) as NK by (unfold nkey_of; rewrite K; reflexivity).
     rewrite NK in Dk. apply andb_true_iff in Dk as [Dk1 Dk2]. apply negb_true_iff in Dk1.
-    destruct key_cells as [_ [_ [C1 C2]]].
-    destruct (step_key_gen cfg c k rk RRecordType None R C1 C2 Wk K) as [c1 [S1 V1]].
-    { eapply Fr; [left; reflexivity | exact NK]. } { unfold room. rewrite X. exact I. } { lia. }
+    destruct key_cells as [_ KR].
+    change (flat_map field_events ((tv, k) :: fields)) with ((map trivia_event tv ++ [k]) ++ flat_map field_events fields).
+    rewrite <- app_assoc, steps_app, steps_trivia by (rewrite R; reflexivity).
+    destruct (step_key_gen cfg c k rk RRecordType None R KR Wk K) as [c1 [S1 V1]].
+    { eapply (Fr (tv, k)); [left; reflexivity | exact NK]. } { unfold room. rewrite X. exact I. } { lia. }
     pose proof (rstep_rectype_name _ _ _ _ _ S1 (key_not_rectype _ _ K)) as RN.
     unfold view in V1. inversion V1 as [[E1 E2 E3 E4 E5 E6]]. clear V1.
     destruct (IH c1) as [c2 [S2 [U1 [U2 [U3 [U4 [U5 [U6 [U7 [U8 [U9 U10]]]]]]]]]]].
@@ -1362,7 +1443,7 @@ Proof.
     + rewrite E1. cbn. exact X.
     + exact W.
     + exact Dk2.
-    + intros k' nk' I' NK'. rewrite E1. cbn [keyed e_keys existsb]. apply orb_false_iff. split.
+    + intros f' nk' I' NK'. rewrite E1. cbn [keyed e_keys existsb]. apply orb_false_iff. split.
       * rewrite nkey_eqb_sym. clear -Dk1 I' NK'.
         induction fields as [|b fields IHe]; [destruct I'|]. cbn [map existsb] in Dk1.
         apply orb_false_iff in Dk1 as [D1 D2]. destruct I' as [I'|I'].
@@ -1370,7 +1451,7 @@ Proof.
         -- apply IHe; assumption.
       * eapply Fr; [right; exact I' | exact NK'].
     + rewrite E4. lia.
-    + exists c2. split; [cbn [steps]; rewrite S1; exact S2|]. rewrite E1 in U8, U10. cbn in U8, U10.
+    + exists c2. split; [cbn [app steps]; rewrite S1; exact S2|]. rewrite E1 in U8, U10. cbn in U8, U10.
       unfold regs in *. repeat split; try congruence; lia.
 Qed.
 
@@ -1393,13 +1474,15 @@ Qed.
 
 Lemma rectype_complete cfg c rts nobj id fields close :
   TopS c rts nobj ->
-  validate_identifier cfg id = true -> forallb (key_ok cfg) fields = true -> nkeys_distinct (map nkey_of fields) = true ->
+  validate_identifier cfg id = true -> forallb (fun f => key_ok cfg (snd f)) fields = true ->
+  nkeys_distinct (map (fun f => nkey_of (snd f)) fields) = true ->
   alookup id rts = None ->
   nobj + 1 + N.of_nat (length fields) <= max_object_count cfg -> 1 <= max_container_depth cfg ->
   exists c', steps cfg c (flatten_top (TopRecType id fields close)) = Some c' /\
              TopS c' (aset id (N.of_nat (length fields)) rts) (nobj + 1 + N.of_nat (length fields)).
 Proof.
   intros [T1 [T2 [T3 [T4 [T5 [T6 [T7 T8]]]]]]] Vi Wk Dk A O D. cbn [flatten_top].
+  change (fun f : list trivia * event => map trivia_event (fst f) ++ [snd f]) with field_events.
   destruct frame_cells as [C1 [C2 _]].
   (* the record type event *)
   assert (exists c1, rstep cfg c (ERecordType id) = Some (c1, [ERecordType id]) /\
@@ -1444,14 +1527,16 @@ Proof.
       cbn [app steps]. rewrite step_trivia by (destruct T as [T1 _]; rewrite T1; reflexivity).
       destruct (IH c rts rts' nobj T Dc) as [c' [S T']]; [lia | cbn [has_rectype existsb] in D; exact D |].
       exists c'. split; [exact S|]. replace (nobj + (0 + object_usage (flat_map flatten_top pre))) with (nobj + object_usage (flat_map flatten_top pre)) by lia. exact T'.
-    + destruct (validate_identifier cfg id && forallb (key_ok cfg) fields && nkeys_distinct (map nkey_of fields) &&
+    + destruct (validate_identifier cfg id && forallb (fun f => key_ok cfg (snd f)) fields &&
+                nkeys_distinct (map (fun f => nkey_of (snd f)) fields) &&
                 match alookup id rts with None => true | Some _ => false end) eqn:Ck; [|discriminate].
       apply andb_true_iff in Ck as [Ck C4]. apply andb_true_iff in Ck as [Ck C3]. apply andb_true_iff in Ck as [C1 C2].
       destruct (alookup id rts) eqn:A; [discriminate|].
       assert (object_usage (flatten_top (TopRecType id fields close)) = 1 + N.of_nat (length fields)) as Z.
       { cbn [flatten_top]. rewrite object_usage_cons, !object_usage_app, object_usage_trivia. cbn [counts_object].
-        change (object_usage [EEnd]) with 0. clear -C2. induction fields as [|k fields IHf]; [reflexivity|].
-        cbn [forallb length] in *. apply andb_true_iff in C2 as [Ck C2]. rewrite object_usage_cons.
+        change (object_usage [EEnd]) with 0. clear -C2. induction fields as [|[tv k] fields IHf]; [reflexivity|].
+        cbn [forallb length flat_map fst snd] in *. apply andb_true_iff in C2 as [Ck C2].
+        rewrite !object_usage_app, object_usage_trivia, object_usage_cons. change (object_usage []) with 0.
         destruct (key_ok_key_of _ _ Ck) as [rk K]. rewrite (proj1 (key_event_object _ _ K)). specialize (IHf C2). lia. }
       rewrite Z in O |- *.
       assert (1 <= max_container_depth cfg) as D1 by (cbn in D; exact D).
@@ -1489,7 +1574,7 @@ Proof.
   destruct T1 as [T1 [T2 [T3 [T4 [T5 [T6 [T7 T8]]]]]]].
   unfold regs in T6. inversion T6 as [[T61 T62 T63]].
   (* the top-level value *)
-  destruct (proj1 (value_complete cfg (d_top d)) c1 false [] [] mk' []) as [c2 [S2 [V2 [Rg2 Rc2]]]];
+  destruct (proj1 (value_complete cfg (d_top d)) c1 PPlain [] [] mk' []) as [c2 [S2 [V2 [Rg2 Rc2]]]];
     try assumption; try solve [rewrite T7; exact W]; try solve [rewrite T1; reflexivity]; try solve [rewrite T1; cbn; discriminate];
     try solve [intros _; exact Wt]; try solve [unfold room; rewrite T2; exact I]; try solve [rewrite T8; lia]; try solve [rewrite T5; lia];
     try solve [rewrite T63; lia];
